@@ -907,7 +907,7 @@ func (d *dec) decodeLinkStrict(b []byte, org uint64) (Link, int) {
 
 // decodeLink decodes a link message. exact: the encoding must fill b completely (fractal heap objects,
 // version 2 headers); otherwise up to 7 bytes of padding may follow.
-func (d *dec) decodeLink(b []byte, org uint64, exact bool) Link {
+func (d *dec) decodeLink(b []byte, org uint64, exact bool, accept func(name string) bool) Link {
 	var l Link
 	var used int
 	var serr *specError
@@ -924,7 +924,11 @@ func (d *dec) decodeLink(b []byte, org uint64, exact bool) Link {
 		l, used = d.decodeLinkStrict(b, org)
 	}()
 	if serr == nil && (used == len(b) || (!exact && len(b)-used < 8)) {
-		return l
+		if accept == nil || accept(l.Name) {
+			return l
+		}
+		// the bytes parse, but not to the name the index expects (possible when the library layout below happens to fit both ways)
+		serr = &specError{msg: fmt.Sprintf("link message at 0x%x: the link name %q does not have the hash stored in the name index", org, l.Name)}
 	}
 	// library layout for densely stored hard links: version 1, flags 0, bytes 0x04 0x00, 1-byte name length, name, address
 	if len(b) >= 5+1+d.O && b[0] == 1 && b[1] == 0 && b[2] == 0x04 && b[3] == 0 && 5+int(b[4])+d.O == len(b) && b[4] > 0 {
@@ -937,6 +941,9 @@ func (d *dec) decodeLink(b []byte, org uint64, exact bool) Link {
 		c.skip(5, "prefix")
 		l = Link{Kind: "hard", Name: string(c.bytes(int(b[4]), "link name"))}
 		l.Addr = c.addr("object header address")
+		if accept != nil && !accept(l.Name) && serr != nil {
+			panic(serr)
+		}
 		return l
 	}
 	if serr != nil {
